@@ -6,6 +6,7 @@ cd /repo || exit 2
 if [ -n "$(git status --porcelain -- src)" ]; then echo "repo not clean"; exit 2; fi
 git apply "$P" || { echo "APPLY-FAILED $P"; exit 2; }
 cd /verif
+export VERIF_EVIDENCE_DIR=/verif/out/mutant-evidence
 for c in "$@"; do
   out=$(./check $c --tier quick 2>&1)
   rc=$?
